@@ -9,6 +9,8 @@ R3   every index into an object of fixed extent is in range for all parameter va
 R4   divisions have a non-zero divisor; array-new element counts derived from API arguments are bounded.
 R5   no abort / throw is reachable from the C API except behind a proven guard (IR reachability + capacity guards).
 R6   loop progress: no loop compares an induction variable with a bound of a wider type.
+R7   (buffer, size) parameters: every subscript of the buffer is proven below the size by symbolic bounds against the size parameter
+     (guards give size >= k; loop conditions give index <= size + c; `data += k; size -= k` is followed).
 """
 import collections, re
 from ..core import *
@@ -27,6 +29,7 @@ RULES = [
     Rule('C03.R4', 'divisors are non-zero and API-sized allocations are bounded', 3),
     Rule('C03.R5', 'abort / throw sites reachable from the C API are guarded', 3),
     Rule('C03.R6', 'no loop compares its induction variable with a bound of a wider type', 30),
+    Rule('C03.R7', 'every access through a caller-provided (buffer, size) pair stays below the size', 20),
 ]
 EXPLANATION = ('Interval abstract interpretation (engine E2) of every reachable function of the core units: parameter ranges are the C types\' ranges for '
                'exported entry points and the call-site join for internal methods, member-field ranges are the join of all stores (narrowing rounds), '
@@ -107,6 +110,7 @@ def analyse(facts, tier):
     obls += r4(facts, res)
     obls += r5(facts)
     obls += r6(facts, res, core)
+    obls += r7(facts)
     if res['leaf_seen'] < 0.97 * res['leaf_total']:
         raise build.AnalysisBroken('E2 reached only %d of %d statements: the interpreter is dropping paths' % (res['leaf_seen'], res['leaf_total']))
     return obls, {'e2_functions': res['functions'], 'e2_seconds': round(res['secs'], 2), 'field_ranges': len(res['field_ranges']),
@@ -365,4 +369,38 @@ def r6(facts, res, file_pred):
             out.append(Obl('C03.R6', fn.name, 'loop ' + show(l['cond'])[:60], '%s:%s' % (fn.file, l.get('ln')), 'discharged' if ok else 'finding',
                            why=why if ok else 'the %d-bit induction variable %s can never reach a bound of %d bits: once the bound exceeds %d the loop never ends' % (wiv, short(iv['n']), bt.get('w', 0), (1 << wiv) - 1),
                            nontrivial=cb is None))
+    return out
+
+
+
+BUFSIZE_EXCLUDED = {'FileAndMemReader::read': 'the count is num * size elements; destination capacity is decided per call site by C01.R1c'}
+
+
+def r7(facts):
+    from ..bufsize import BufSize
+    out = []
+    seen = set()
+    n = 0
+    for fn in facts.all_fns():
+        if fn.relfile() not in e2prog.CORE_FILES or fn.tree is None or fn.name in seen or fn.name in BUFSIZE_EXCLUDED:
+            continue
+        pp = [p for p in fn.params if p['t'].get('p')]
+        sz = [p for p in fn.params if not p['t'].get('p') and p['t'].get('w') and re.fullmatch(r'size|length|len', p['n'], re.I)]
+        if not pp or len(sz) != 1:
+            continue
+        ids = {p['id'] for p in pp}
+        if not any(x.get('k') == 'ArraySubscriptExpr' and strip(x['b']).get('k') == 'DeclRefExpr' and strip(x['b']).get('id') in ids for b, ex, loc in fn.cfg.exprs() for x in walk(ex)):
+            continue
+        seen.add(fn.name)
+        bs = BufSize(fn, ids, sz[0]['id'])
+        ob = bs.run()
+        for (ln, txt), (ok, have, loc) in sorted(ob.items(), key=lambda kv: (kv[0][0] or 0, kv[0][1])):
+            n += 1
+            if bs.undecided:
+                out.append(Obl('C03.R7', fn.name, txt, '%s:%s' % (fn.file, ln), 'assumed', why='not decided: ' + bs.undecided, nontrivial=False))
+            else:
+                out.append(Obl('C03.R7', fn.name, txt, '%s:%s' % (fn.file, ln), 'discharged' if ok else 'finding',
+                               why=have if ok else 'the access is not proven below `%s`: %s — the caller\'s buffer is overrun by one element or more' % (sz[0]['n'], have)))
+    if n < 20:
+        raise build.AnalysisBroken('C03.R7: only %d (buffer, size) accesses found' % n)
     return out
